@@ -118,6 +118,16 @@ def _unexpected_token(
     return UnexpectedToken('Unexpected "%s"' % token, position, source)
 
 
+def _nested_too_deeply(parser: "Parser") -> GraphQLSyntaxError:
+    # The parser is recursive: nesting deeper than the interpreter's recursion
+    # limit must still surface as a syntax error and not as a RecursionError.
+    return GraphQLSyntaxError(
+        "Document is nested too deeply",
+        min(parser._lexer._position, len(parser._source)),
+        parser._source,
+    )
+
+
 def parse(source: Union[str, bytes], **kwargs: Any) -> _ast.Document:
     """
     Parse a string as a GraphQL Document.
@@ -133,7 +143,11 @@ def parse(source: Union[str, bytes], **kwargs: Any) -> _ast.Document:
         `py_gql.lang.ast.Document`: Parsed document.
 
     """
-    return Parser(source, **kwargs).parse_document()
+    parser = Parser(source, **kwargs)
+    try:
+        return parser.parse_document()
+    except RecursionError:
+        raise _nested_too_deeply(parser) from None
 
 
 def parse_value(
@@ -163,9 +177,12 @@ def parse_value(
 
     """
     parser = Parser(source, **kwargs)
-    parser.expect(SOF)
-    value = parser.parse_value_literal(False)
-    parser.expect(EOF)
+    try:
+        parser.expect(SOF)
+        value = parser.parse_value_literal(False)
+        parser.expect(EOF)
+    except RecursionError:
+        raise _nested_too_deeply(parser) from None
     return value
 
 
@@ -189,9 +206,12 @@ def parse_type(source: Union[str, bytes], **kwargs: Any) -> _ast.Type:
 
     """
     parser = Parser(source, **kwargs)
-    parser.expect(SOF)
-    value = parser.parse_type_reference()
-    parser.expect(EOF)
+    try:
+        parser.expect(SOF)
+        value = parser.parse_type_reference()
+        parser.expect(EOF)
+    except RecursionError:
+        raise _nested_too_deeply(parser) from None
     return value
 
 
